@@ -1,7 +1,116 @@
-(* C01 — encrypt-then-decrypt returns the message up to the configured bounded error.  Pinned statements only. *)
-From PV Require Import Base.MachineInt Model.Znx Model.Limbs Model.EncModel.
+(* C01 — encrypt-then-decrypt returns the message up to the configured bounded error.  Pinned statements only.
+
+   Reading guide.  `enc_sk`, `dec_glwe`, ... are the transcriptions of glwe_encrypt_sk_internal / glwe_decrypt (Model/EncModel.v),
+   tied to the code bit for bit by the correspondence check on four backends.  Values on the torus are integers scaled by 2^P
+   (`val_scaled`, `lval`), `tor_abs P x` is the distance of x/2^P to the nearest integer times 2^P, `wt P b j = 2^(P-(j+1)b)`
+   is the weight of limb j.  `normalize_value_ok` is the value statement of C08 about the normalisers, taken as a hypothesis
+   (C08_normalize_inter_value proves it for the same-radix 64-bit routine; the C08 oracle checks it on every record for the
+   cross-radix and big-accumulator routines).  The magnitude hypotheses are the backend's exact-product domain:
+   S bounds the 1-norm of every secret polynomial, E the error, M the plaintext digits. *)
+From PV Require Import Base.MachineInt Model.Znx Model.Limbs Model.Flat Model.DftAbs Model.C08Oracle Model.EncModel
+  Proofs.EncValue Proofs.EncLists Proofs.EncSampler Proofs.C01Sk Proofs.C01Glwe.
 Open Scope Z_scope.
 
-Theorem C01_stub : forall b u : Z, uniform_digit b u = Z.land u (2 ^ b - 1) - 2 ^ (b - 1).
-Proof. reflexivity. Qed.
-Print Assumptions C01_stub.
+(* decrypt(encrypt m) = m + e * 2^-(limb+1)b + rho on the torus, |rho| <= one unit of the decrypted plaintext's last limb,
+   for every mask stream `us`: the mask cancels exactly.  The message is the plaintext as far as it fits the ciphertext
+   (`firstn size`: limbs beyond the ciphertext are dropped by the size rule of vec_znx_add_assign). *)
+Theorem C01_sk_roundtrip :
+  forall (wb b pb R : Z) (n size psize rank : nat) (nk S E M : Z),
+  normalize_value_ok (fun rb ab => normalize 64 rb ab 0) (2 ^ 62) R ->
+  normalize_value_ok (bnorm wb) (2 ^ (wb - 2)) R ->
+  2 <= wb -> 1 <= b <= R -> 1 <= pb <= R -> 0 <= S ->
+  forall (pt : ccol) (sk : list poly) (us : nat -> Z) (e : poly) (ct : list ccol) (d : ccol),
+  length sk = rank ->
+  Forall (fun s => norm1 s <= S) sk ->
+  (forall k, (k < n)%nat -> Z.abs (nthZ e k) <= E) ->
+  (forall k, (k < n)%nat -> bnd M (coef pt k)) ->
+  zn rank * 2 ^ (b - 1) + E + M <= 2 ^ 62 ->
+  zn rank * (S * 2 ^ (b - 1)) + 2 ^ (b - 1) <= 2 ^ (wb - 2) ->
+  S * 2 ^ (b - 1) <= 2 ^ (wb - 2) ->
+  enc_sk wb b n size rank nk (Some (pt, O)) sk us e = Some ct ->
+  dec_glwe wb b pb n size psize sk ct = Some d ->
+  forall k, (k < n)%nat -> length (coef d k) = psize /\
+    forall P, zn size * b <= P -> zn psize * pb <= P -> 1 <= P ->
+    tor_abs P (val_scaled P pb (coef d k) - val_scaled P b (firstn size (coef pt k)) - nthZ e k * wt P b (target_limb nk b))
+      <= 2 ^ (P - zn psize * pb).
+Proof. exact sk_roundtrip_value. Qed.
+Print Assumptions C01_sk_roundtrip.
+
+(* the message sits where it was given: column 0, limb j of the plaintext at weight 2^-(j+1)b; the exact phase
+   body + sum_i s_i a_i equals message + error on the torus, the error on limb ceil(nk/b)-1 with coefficient exactly 1;
+   the mask columns are the digits of the mask stream, whatever the plaintext. *)
+Theorem C01_message_position :
+  forall (wb b pb R : Z) (n size psize rank : nat) (nk S E M : Z),
+  normalize_value_ok (fun rb ab => normalize 64 rb ab 0) (2 ^ 62) R ->
+  normalize_value_ok (bnorm wb) (2 ^ (wb - 2)) R ->
+  2 <= wb -> 1 <= b <= R -> 1 <= pb <= R -> 0 <= S ->
+  forall (pt : ccol) (sk : list poly) (us : nat -> Z) (e : poly) (ct : list ccol) (d : ccol),
+  length sk = rank ->
+  Forall (fun s => norm1 s <= S) sk ->
+  (forall k, (k < n)%nat -> Z.abs (nthZ e k) <= E) ->
+  (forall k, (k < n)%nat -> bnd M (coef pt k)) ->
+  zn rank * 2 ^ (b - 1) + E + M <= 2 ^ 62 ->
+  zn rank * (S * 2 ^ (b - 1)) + 2 ^ (b - 1) <= 2 ^ (wb - 2) ->
+  S * 2 ^ (b - 1) <= 2 ^ (wb - 2) ->
+  enc_sk wb b n size rank nk (Some (pt, O)) sk us e = Some ct ->
+  dec_glwe wb b pb n size psize sk ct = Some d ->
+  (target_limb nk b < size)%nat /\ tl ct = glwe_mask b n size rank us /\
+  forall k, (k < n)%nat ->
+    length (coef (hd [] ct) k) = size /\ Forall (in_range b) (coef (hd [] ct) k) /\
+    forall P, zn size * b <= P -> zn psize * pb <= P -> 1 <= P ->
+    exists q, lval P b size (coef (hd [] ct) k) + lvsum P b size (prods_at n size sk (tl ct) k)
+              = lval P b size (coef pt k) + nthZ e k * wt P b (target_limb nk b) + q * 2 ^ P.
+Proof. exact sk_message_position. Qed.
+Print Assumptions C01_message_position.
+
+(* `prods_at` really is the product of the clear secret with the mask, limb by limb: (s_i * a_i)_k *)
+Theorem C01_phase_products : forall (s : poly) (n size : nat) (c : ccol) (k : nat), (k < n)%nat ->
+  coef (svp s n size c) k = map (fun j => nthZ (pmul s (limb_poly c j)) k) (seq 0 size).
+Proof. exact coef_svp. Qed.
+Print Assumptions C01_phase_products.
+
+(* the rejection loop `while |x| > bound { resample }; round` over ANY stream of samples (rationals num / 2^dl):
+   every returned value satisfies |e| <= ceil(bound), bound = bn / 2^bl (= noise.bound * scale in the code) *)
+Theorem C01_error_bound_from_sampler :
+  forall (bn bl : Z), 0 <= bl -> 0 <= bn ->
+  forall (cnt : nat) (xs : list (Z * Z)) (es : list Z) (rest : list (Z * Z)),
+  Forall (fun x => 0 <= snd x) xs -> sample_n bn bl cnt xs = Some (es, rest) ->
+  length es = cnt /\ Forall (fun e => Z.abs e <= (bn + 2 ^ bl - 1) / 2 ^ bl) es.
+Proof. exact sample_n_bound. Qed.
+Print Assumptions C01_error_bound_from_sampler.
+
+(* the accepted sample is the first one within the bound; earlier ones are all beyond it *)
+Theorem C01_sampler_accepts_first :
+  forall (bn bl : Z) (xs : list (Z * Z)) (e : Z) (rest : list (Z * Z)),
+  sample_one bn bl xs = Some (e, rest) ->
+  exists pre num dl, xs = pre ++ (num, dl) :: rest /\ Forall (fun x => exceeds (fst x) (snd x) bn bl = true) pre /\
+                     exceeds num dl bn bl = false /\ e = round_half_away num dl.
+Proof. exact sample_one_first_accepted. Qed.
+Print Assumptions C01_sampler_accepts_first.
+
+(* ---- the hypotheses are met by a concrete non-trivial instance; the conclusion is checked on it by computation ---- *)
+Example C01_sampler_ex :
+  sample_n 77 2 3 [(5, 1); (-81, 2); (39, 1); (-77, 2); (1, 3)] = Some ([3; -19; 0], [])
+  /\ (77 + 2 ^ 2 - 1) / 2 ^ 2 = 20.
+Proof. vm_compute. split; reflexivity. Qed.
+
+(* magnitude hypotheses at a typical layout: base2k = 17, rank 2, ternary secret of 1-norm <= 1024, sigma 3.2 *)
+Example C01_domain_ex : zn 2 * 2 ^ (17 - 1) + 2 ^ 21 + 2 ^ 16 <= 2 ^ 62 /\
+  zn 2 * (1024 * 2 ^ (17 - 1)) + 2 ^ (17 - 1) <= 2 ^ (64 - 2) /\ 1024 * 2 ^ (17 - 1) <= 2 ^ (64 - 2).
+Proof. unfold zn. cbn. lia. Qed.
+
+(* a complete encrypt / decrypt instance of the model (n = 4, rank 1, base2k 5, 2 limbs, noise at k = 7) *)
+Example C01_roundtrip_ex :
+  let us := fun i => nthZ [1234567; 89; 4000000001; 77; 13; 999999; 31; 2] i in
+  let pt := [[3; -2]; [0; 1]; [-16; 15]; [7; 7]] in
+  let sk := [[1; 0; -1; 1]] in
+  let e := [2; -1; 0; 3] in
+  match enc_sk 64 5 4 2 1 7 (Some (pt, O)) sk us e with
+  | Some ct => match dec_glwe 64 5 5 4 2 2 sk ct with
+               | Some d => forallb (fun k => tor_abs 20 (val_scaled 20 5 (coef d k) - val_scaled 20 5 (coef pt k)
+                                                        - nthZ e k * wt 20 5 (target_limb 7 5)) <=? 2 ^ (20 - 10)) [0; 1; 2; 3]%nat = true
+               | None => False
+               end
+  | None => False
+  end.
+Proof. vm_compute. reflexivity. Qed.
